@@ -189,6 +189,12 @@ class Ctx:
         self.out.write(json.dumps({'t': 'note', 'kind': kind, 'payload': jsonable(payload)}) + '\n')
 
     def finish(self):
+        try:
+            import yaml
+            self.stats['worker_have_c'] = int(bool(getattr(yaml, '__with_libyaml__', False)))
+            self.stats['worker_count'] = 1
+        except Exception:
+            pass
         self.out.write(json.dumps({'t': 'done', 'stats': self.stats, 'evaluations': self.evaluations,
                                    'hashes': sorted(self.hashes), 'overflow': self.overflow_distinct,
                                    'samples': self.samples, 'wall': time.time() - self.t0}) + '\n')
